@@ -352,7 +352,7 @@ def build(tier):
     return CheckSpec(
         [
             Sub("grid", run_case, cases=cases_grid, exhaustive=True, note="finite grid of DESIGN.md C03"),
-            Sub("random", run_case, strategy=_random_case, budget={"quick": 5000, "thorough": 60000}, max_wall={"quick": 50, "thorough": 1500}),
+            Sub("random", run_case, strategy=_random_case, budget={"quick": 5000, "thorough": 300000}, max_wall={"quick": 50, "thorough": 3600}),
         ],
         RULE,
         assumptions=[
